@@ -1227,6 +1227,11 @@ typedef struct
 typedef void (*pixman_verif_sink_t) (const char *event, const void *data);
 extern pixman_verif_sink_t _pixman_verif_sink;
 
+/* installs a sink that writes Tables/Lookup/Dispatch events as NDJSON to the
+ * file named by the environment variable PIXMAN_VERIF_TRACE (at most
+ * PIXMAN_VERIF_TRACE_MAX events, default 20000); no-op if it is not set */
+void _pixman_verif_install_file_sink (void);
+
 #define PIXMAN_VERIF_EVENT(name, data)					\
     do { if (_pixman_verif_sink) _pixman_verif_sink ((name), (data)); } while (0)
 #endif /* PIXMAN_VERIF */
